@@ -33,6 +33,21 @@ RECURSIVE EncodeAll(_, _)
 EncodeAll(ms, ipc) == IF ms = <<>> THEN <<>> ELSE Encode(Head(ms), ipc) \o EncodeAll(Tail(ms), ipc)
 
 \* ------------------------------------------------------------------------
+\* The SP protocol numbers (sp-*-mapping RFCs; STAR is mangos' own, 100 * 16) and who talks to whom.  This is
+\* the independent table: nothing the library defines is consulted when a trace is validated against it.
+SPNumber == [pair |-> 16, pair1 |-> 17, pub |-> 32, sub |-> 33, req |-> 48, rep |-> 49, push |-> 80, pull |-> 81,
+             surveyor |-> 98, respondent |-> 99, bus |-> 112, star |-> 1600]
+SPPartner == [pair |-> "pair", pair1 |-> "pair1", pub |-> "sub", sub |-> "pub", req |-> "rep", rep |-> "req",
+              push |-> "pull", pull |-> "push", surveyor |-> "respondent", respondent |-> "surveyor",
+              bus |-> "bus", star |-> "star"]
+SPNames == DOMAIN SPNumber
+\* numbers are distinct, partnership is symmetric, and a number's low nibble tells the role within its family
+SPTableOK ==
+  /\ \A a, b \in SPNames : a # b => SPNumber[a] # SPNumber[b]
+  /\ \A a \in SPNames : SPPartner[a] \in SPNames /\ SPPartner[SPPartner[a]] = a
+  /\ \A a \in SPNames : SPNumber[a] \div 16 = SPNumber[SPPartner[a]] \div 16
+
+\* ------------------------------------------------------------------------
 \* handshake: what the reader accepts
 HeaderOK(h, peer) ==
   /\ Len(h) = 8
